@@ -45,7 +45,14 @@ func addr(a netip.Addr) string {
 }
 
 // Canon renders a protocol.Message; "nil" for a nil message, "?<type>" for unknown types.
-func Canon(m protocol.Message) string {
+// Long payloads are abbreviated as #len:fnv64.
+func Canon(m protocol.Message) string { return canon(m, vhlib.Payload) }
+
+// CanonFull is Canon with every payload in full hex (used in op lines, which the Lean
+// driver parses back into a message).
+func CanonFull(m protocol.Message) string { return canon(m, vhlib.Hex) }
+
+func canon(m protocol.Message, pl func([]byte) string) string {
 	switch m := m.(type) {
 	case nil:
 		return "nil"
@@ -62,11 +69,11 @@ func Canon(m protocol.Message) string {
 	case protocol.Have:
 		return fmt.Sprintf("Have %d", m.Index)
 	case protocol.Bitfield:
-		return "Bitfield " + vhlib.Payload(m.Bitfield)
+		return "Bitfield " + pl(m.Bitfield)
 	case protocol.Request:
 		return fmt.Sprintf("Request %d %d %d", m.Index, m.Begin, m.Length)
 	case protocol.Piece:
-		return fmt.Sprintf("Piece %d %d %s", m.Index, m.Begin, vhlib.Payload(m.Data))
+		return fmt.Sprintf("Piece %d %d %s", m.Index, m.Begin, pl(m.Data))
 	case protocol.Cancel:
 		return fmt.Sprintf("Cancel %d %d %d", m.Index, m.Begin, m.Length)
 	case protocol.Port:
@@ -104,7 +111,7 @@ func Canon(m protocol.Message) string {
 		return fmt.Sprintf("Pex %d a=%s d=%s", m.Subtype, peers(m.Added), peers(m.Dropped))
 	case protocol.ExtendedMetadata:
 		return fmt.Sprintf("Meta %d %d %d %d %s", m.Subtype, m.Type, m.Piece, m.TotalSize,
-			vhlib.Payload(m.Data))
+			pl(m.Data))
 	case protocol.ExtendedDontHave:
 		return fmt.Sprintf("DontHave %d %d", m.Subtype, m.Index)
 	case protocol.ExtendedUploadOnly:
